@@ -313,6 +313,15 @@ AST_TO_REVERSE = {
     node_cls: _NEG_OPERATOR_TO_AST[op]
     for node_cls, (op, _, _) in COMPARATOR_TO_OPERATOR.items()
 }
+# The comparator to use when the operands are swapped: "2 < x" means "x > 2".
+AST_TO_FLIPPED = {ast.Lt: ast.Gt, ast.LtE: ast.GtE, ast.Gt: ast.Lt, ast.GtE: ast.LtE}
+
+
+def _flip_comparator(op: ast.AST) -> ast.AST:
+    flipped = AST_TO_FLIPPED.get(type(op))
+    if flipped is None:
+        return op
+    return flipped()
 
 SAFE_DECORATORS_FOR_ARGSPEC_TO_RETVAL = [KnownValue(asynq.asynq), KnownValue(property)]
 if sys.version_info < (3, 11):
@@ -3569,8 +3578,9 @@ class NameCheckVisitor(node_visitor.ReplacingNodeVisitor):
         elif isinstance(rhs_constraint, PredicateProvider) and isinstance(
             lhs, KnownValue
         ):
+            # The provider is on the right-hand side, so "2 < len(x)" means "len(x) > 2".
             constraint = self._constraint_from_predicate_provider(
-                rhs_constraint, lhs.val, op
+                rhs_constraint, lhs.val, _flip_comparator(op)
             )
         elif isinstance(rhs, KnownValue):
             constraint = self._constraint_from_compare_op(
@@ -3641,6 +3651,9 @@ class NameCheckVisitor(node_visitor.ReplacingNodeVisitor):
             return Constraint(varname, ConstraintType.predicate, positive, predicate)
         else:
             positive_operator, negative_operator, ext = COMPARATOR_TO_OPERATOR[type(op)]
+            if not is_right:
+                # The constrained value is on the right-hand side: "5 < x" means "x > 5".
+                _, _, ext = COMPARATOR_TO_OPERATOR[type(_flip_comparator(op))]
 
             def predicate_func(value: Value, positive: bool) -> Optional[Value]:
                 op = positive_operator if positive else negative_operator
